@@ -24,7 +24,7 @@ ASSUMPTIONS = ['master-equation expectation computed with scipy expm on the 3^N 
 BUDGET = {'quick': 170, 'thorough': 1700}
 CHUNK = {'quick': 4, 'thorough': 10}
 CASE_TIMEOUT = 400
-REQUIRED = ['trees_compared', 'tree_node_curves_compared', 'final_sizes_compared', 'final_size_form_sets', 'final_size_form_direct', 'final_size_with_initially_recovered', 'recurrences_checked', 'tau0_models_checked', 'gamma0_pairs_compared']
+REQUIRED = ['trees_compared', 'tree_node_curves_compared', 'final_sizes_compared', 'final_size_form_sets', 'final_size_form_direct', 'final_size_form_sk0', 'final_size_with_initially_recovered', 'recurrences_checked', 'tau0_models_checked', 'gamma0_pairs_compared']
 
 SIS_SIR_PAIRS = [('SIS_homogeneous_meanfield_from_graph', 'SIR_homogeneous_meanfield_from_graph'), ('SIS_homogeneous_pairwise_from_graph', 'SIR_homogeneous_pairwise_from_graph'),
                  ('SIS_heterogeneous_meanfield_from_graph', 'SIR_heterogeneous_meanfield_from_graph'), ('SIS_heterogeneous_pairwise_from_graph', 'SIR_heterogeneous_pairwise_from_graph'),
@@ -182,9 +182,37 @@ def run_final(case, res, discrete):
     # three ways of stating the initial condition: rho | explicit node sets through the *_from_graph wrapper | the same sets
     # condensed by the harness into (Sk0, phiS0, phiR0) and given to the degree-distribution form
     rc = random.Random(case['seed'] + 11)
-    form = ('rho', 'sets', 'direct')[case.get('model_idx', 0) % 3]
+    form = ('rho', 'sets', 'direct', 'sk0')[case.get('model_idx', 0) % 4]
     I0 = R0 = ()
-    if form != 'rho':
+    if form == 'sk0':
+        # degree-dependent random introduction: a degree-k node is initially susceptible with probability Sk0[k]; phiS0 is left to its
+        # default.  The matching dynamics is EBCM(_discrete) with psihat(x) = sum Pk Sk0[k] x^k and phiS0 = psihat'(1)/<k>
+        # (the probability that the node at the end of a random edge is susceptible), phiR0 = 0
+        Sk0 = {k: rc.choice([0.5, 0.7, 0.9, 0.97, 1.0]) for k in Pk}
+        kave = sum(k * pk for k, pk in Pk.items())
+        ps = lambda x: sum(Pk[k] * Sk0[k] * x ** k for k in Pk)
+        psP = lambda x: sum(k * Pk[k] * Sk0[k] * x ** (k - 1) for k in Pk if k >= 1)
+        if len(set(Sk0.values())) < 2 or psP(1.0) <= 0 or ps(1.0) >= 1.0:
+            form = 'rho'
+        else:
+            rho = 1 - ps(1.0)
+            try:
+                if discrete:
+                    p = case['p']
+                    a100, a2000 = EoN.Attack_rate_discrete(Pk, p, Sk0=dict(Sk0)), EoN.Attack_rate_discrete(Pk, p, Sk0=dict(Sk0), number_its=2000)
+                    t, S, I, R = EoN.EBCM_discrete(N, ps, psP, p, psP(1.0) / kave, tmax=400)
+                else:
+                    tau, gamma = case['tau'], case['gamma']
+                    a100, a2000 = EoN.Attack_rate_cts_time(Pk, tau, gamma, Sk0=dict(Sk0)), EoN.Attack_rate_cts_time(Pk, tau, gamma, Sk0=dict(Sk0), number_its=2000)
+                    (t, S, I, R), bad = _quiet(EoN.EBCM, N, ps, psP, tau, gamma, psP(1.0) / kave, tmax=60.0 / gamma + 200.0, tcount=41)
+                    if bad:
+                        bump(res, 'discarded_numerical_warnings')
+                        return
+            except Exception as e:
+                viol(res, 'final_size|%s|%s|exception:%s' % ('discrete' if discrete else 'cts', form, simcase.exc_key(e)), {'err': repr(e)[:200]})
+                return
+            bump(res, 'final_size_form_sk0')
+    if form not in ('rho', 'sk0'):
         I0i = rc.sample(range(n), rc.randint(1, 3))
         rest = [i for i in range(n) if i not in I0i]
         R0i = rc.sample(rest, rc.randint(0, min(4, len(rest) - 2)))
@@ -199,6 +227,8 @@ def run_final(case, res, discrete):
             rho = (len(I0) + len(R0)) / N          # only used for the non-triviality threshold below
     ickw = {'rho': case['rho']} if form == 'rho' else {'initial_infecteds': list(I0), 'initial_recovereds': list(R0)}
     try:
+        if form == 'sk0':
+            raise StopIteration
         if discrete:
             p = case['p']
             if form == 'rho':
@@ -222,10 +252,13 @@ def run_final(case, res, discrete):
             if bad:
                 bump(res, 'discarded_numerical_warnings')
                 return
+    except StopIteration:
+        pass
     except Exception as e:
         viol(res, 'final_size|%s|%s|exception:%s' % ('discrete' if discrete else 'cts', form, simcase.exc_key(e)), {'err': repr(e)[:200]})
         return
-    bump(res, 'final_size_form_' + form)
+    if form != 'sk0':
+        bump(res, 'final_size_form_' + form)
     if R0:
         bump(res, 'final_size_with_initially_recovered')
     if abs(a100 - a2000) > 1e-9:
